@@ -517,7 +517,10 @@ type ubjDec struct {
 	b     []byte
 	pos   int
 	feats map[string]bool
+	nodes int
 }
+
+var errAmplified = fmt.Errorf("more values than 16 per input byte (zero-width typed container)")
 
 func (d *ubjDec) need(n int) error {
 	if n < 0 || d.pos+n > len(d.b) || d.pos+n < d.pos {
@@ -709,6 +712,10 @@ func (d *ubjDec) container(obj bool, depth int) (val.V, error) {
 		count = n
 		d.feats["counted"] = true
 	}
+	if typ == 'N' && !obj {
+		// a typed array of no-ops holds nothing
+		return out, nil
+	}
 	for i := 0; count < 0 || i < count; i++ {
 		var key string
 		if obj {
@@ -752,6 +759,9 @@ func (d *ubjDec) container(obj bool, depth int) (val.V, error) {
 				if count >= 0 {
 					d.feats["noop-in-counted"] = true
 				}
+				if obj {
+					d.feats["noop-in-object"] = true
+				}
 				continue
 			}
 			break
@@ -761,6 +771,11 @@ func (d *ubjDec) container(obj bool, depth int) (val.V, error) {
 		}
 		if typ == 'N' {
 			continue
+		}
+		d.nodes++
+		if d.nodes > 16*len(d.b)+1024 {
+			d.feats["amplified"] = true
+			return out, errAmplified
 		}
 		if obj {
 			out.Keys = append(out.Keys, key)
